@@ -42,7 +42,6 @@ def truncToInt (q : Rat) : Option Int :=
 
 inductive LRes where
   | val (v : GoVal)
-  | panic (why : String)
   | unmodelled (why : String)
   deriving Repr
 
